@@ -79,6 +79,7 @@ type run struct {
 	symbolicPath bool
 	events       []string
 
+	emits     []string
 	pendingGo []pendingGo
 	twins     map[*Term]*Term
 	stack     []*ssa.Function
@@ -398,6 +399,7 @@ type entryResult struct {
 	ProvedLabels map[string]int `json:"proved_labels"`
 	Truncated    bool           `json:"truncated"`
 	Traces       []traceRec     `json:"traces,omitempty"`
+	Emits        []string       `json:"emits,omitempty"`
 	RaceQueries  int            `json:"race_queries,omitempty"`
 }
 
@@ -493,6 +495,9 @@ func (e *engine) explore(entry *ssa.Function, args []value, qlog func(int) *stri
 				e.lazyInits[p] = true
 			}
 			e.mu.Unlock()
+			if len(r.emits) > 0 && len(res.Emits) == 0 {
+				res.Emits = r.emits
+			}
 			for _, t := range r.traces {
 				k := t.Op + "|" + strings.Join(t.Events, ";")
 				if !traceSeen[k] {
